@@ -167,6 +167,21 @@ def run_more(chk, repo, mc):
                           line=n.lineno,
                           witness='two joint blocks that share their omega symbols (IOV per occasion / BLOCK SAME): the '
                                   'second block is evaluated on sd/corr values and converted twice')
+    V5 = chk.rule('V5', 'per-distribution state of the block bookkeeping (flags tested in an inner loop) is initialised '
+                        'inside the loop over the distributions', floor=1)
+    for f in repo.all_funcs():
+        if not f.module.name.startswith(('pharmpy.model.random_variables', 'pharmpy.model.distributions')):
+            continue
+        for L, M, v, reinit in lints.loop_carried_flags(f.node):
+            chk.instance(V5, f'{f.qualname}: flag `{v}` tested in the loop at line {M.lineno}, initialised per iteration of '
+                             f'`for {unparse(L.target) if isinstance(L, ast.For) else "while"}`: {reinit}')
+            if not reinit:
+                chk.violation(V5, f.module.rel, f.qualname, f'`{v}` initialised outside `for {unparse(L.target)} in '
+                                                             f'{unparse(L.iter)}`' if isinstance(L, ast.For) else f'`{v}`',
+                              f'`{v}` is consumed by the first block that is split; later blocks touched by the same call '
+                              f'never build their remaining sub-block', line=M.lineno,
+                              witness='two joint blocks of three etas, unjoin one eta of each: the variables that should '
+                                      'stay in the second block disappear')
     # V3
     for name in ('create', 'replace'):
         f = mc.methods.get(name)
